@@ -37,6 +37,52 @@ type c15Op struct {
 	Dt     int    `json:"dt,omitempty"`     // end: seconds
 	Aim    string `json:"aim,omitempty"`    // end: choose dt so that the block lands on a boundary (+Delta)
 	Delta  int    `json:"delta,omitempty"`
+	// sub: msg.Timestamp = block time + offset; Off names the offset (c15Offsets), OffR parametrises "rand"
+	Off  string `json:"off,omitempty"`
+	OffR int    `json:"offr,omitempty"`
+	Pos  int    `json:"pos,omitempty"` // end, aim "price-gap": position between claimed+interval and accepted+interval
+}
+
+// c15Offsets are the offsets of msg.Timestamp relative to the block time of inclusion, D = AllowableBlockTimeDiscrepancy.
+// The last two lie just outside the allowed window and must be rejected.
+var c15Offsets = []string{"0", "-1", "+1", "-D", "+D", "-(D-1)", "+(D-1)", "rand", "-(D+1)", "+(D+1)"}
+
+func c15Offset(kind string, r int, d int64) int64 {
+	switch kind {
+	case "-1":
+		return -1
+	case "+1":
+		return 1
+	case "-D":
+		return -d
+	case "+D":
+		return d
+	case "-(D-1)":
+		return -(d - 1)
+	case "+(D-1)":
+		return d - 1
+	case "rand":
+		if r < 0 {
+			r = -r
+		}
+		return -d + int64(r)%(2*d+1)
+	case "-(D+1)":
+		return -(d + 1)
+	case "+(D+1)":
+		return d + 1
+	}
+	return 0
+}
+
+func genC15Offset(rt *rapid.T, outside bool) (string, int) {
+	if gen.Chance(rt, "off0", 1, 2) {
+		return "0", 0
+	}
+	k := 7
+	if outside {
+		k = 9
+	}
+	return c15Offsets[1+gen.Uniform(rt, "offkind", k)], gen.Uniform(rt, "offr", 1000)
 }
 
 type c15Signal struct {
@@ -56,6 +102,9 @@ type c15ChainCase struct {
 	MaxInterval int64       `json:"max_interval"`
 	UpdInterval int64       `json:"upd_interval"`
 	Cooldown    int64       `json:"cooldown"`
+	Discrepancy int64       `json:"discrepancy"`  // AllowableBlockTimeDiscrepancy (0 in old replay files = 60)
+	DilOff      []string    `json:"dil_off"`      // per validator: timestamp offset kind of its harness-driven submissions
+	DilOffR     []int       `json:"dil_off_rand"` //
 	Signals     []c15Signal `json:"signals"`
 	Ops         []c15Op     `json:"ops"`
 }
@@ -69,6 +118,9 @@ func genC15Chain(rt *rapid.T) c15ChainCase {
 		c.Tokens = append(c.Tokens, int64(gen.Range(rt, "tok", 1, 40))*1_000_000)
 		c.InitActive = append(c.InitActive, gen.Chance(rt, "initact", 8, 10))
 		c.Diligent = append(c.Diligent, gen.Chance(rt, "diligent", 3, 10))
+		k, r := genC15Offset(rt, false)
+		c.DilOff = append(c.DilOff, k)
+		c.DilOffR = append(c.DilOffR, r)
 	}
 	c.Expiration = uint64(gen.Range(rt, "exp", 1, 5))
 	c.PenaltySec = gen.OneOf[int64](rt, "penalty", 0, 0, 1, 2, 3, 4, 6, 30, 31, 100, 103, 600, int64(gen.Range(rt, "penalty-any", 0, 600)))
@@ -80,6 +132,7 @@ func genC15Chain(rt *rapid.T) c15ChainCase {
 	if gen.Chance(rt, "cooldown", 1, 4) {
 		c.Cooldown = c.MinInterval
 	}
+	c.Discrepancy = gen.OneOf[int64](rt, "discrepancy", 1, 2, 3, 5, 10, 10, 30, 60, 60)
 	nsig := gen.Pick(rt, "nsig", 5, 3, 2) + 1
 	for i := 0; i < nsig; i++ {
 		c.Signals = append(c.Signals, c15Signal{ID: fmt.Sprintf("CS:S%d-USD", i), Factor: gen.OneOf[int64](rt, "factor", 1, 1, 2, 3, 4, 10, 50)})
@@ -102,14 +155,16 @@ func genC15Chain(rt *rapid.T) c15ChainCase {
 			if gen.Chance(rt, "partial", 1, 2) {
 				sigs = gen.Uniform(rt, "sigs", 8)
 			}
-			c.Ops = append(c.Ops, c15Op{K: "sub", Val: gen.Uniform(rt, "val", n), Sigs: sigs, Status: gen.Pick(rt, "status", 6, 1, 1)})
+			off, offr := genC15Offset(rt, true)
+			c.Ops = append(c.Ops, c15Op{K: "sub", Val: gen.Uniform(rt, "val", n), Sigs: sigs, Status: gen.Pick(rt, "status", 6, 1, 1), Off: off, OffR: offr})
 		default:
 			o := c15Op{K: "end", Dt: gen.OneOf(rt, "dt", 0, 0, 1, 1, 1, 1, 3, 3, 3, 30, 100, 1000)}
 			if gen.Chance(rt, "aim", 1, 4) {
-				o.Aim = gen.OneOf(rt, "aimkind", "grace-act", "grace-upd", "price", "price")
+				o.Aim = gen.OneOf(rt, "aimkind", "grace-act", "grace-upd", "price", "price", "price-gap", "price-gap")
 				o.Val = gen.Uniform(rt, "val", n)
 				o.Sigs = gen.Uniform(rt, "sig", 3)
 				o.Delta = gen.Range(rt, "delta", -1, 1)
+				o.Pos = gen.Uniform(rt, "pos", 7)
 			}
 			c.Ops = append(c.Ops, o)
 		}
@@ -119,7 +174,9 @@ func genC15Chain(rt *rapid.T) c15ChainCase {
 
 // ---- model -------------------------------------------------------------------------------------------
 
-type c15Price struct{ ts, h int64 }
+// c15Price: ts/h = block time and height at which the chain accepted the submission (what the reference uses);
+// claimed = the msg.Timestamp the validator put into it (only used to aim block times).
+type c15Price struct{ ts, h, claimed int64 }
 
 type c15Val struct {
 	active     bool
@@ -146,6 +203,9 @@ type c15Meta struct {
 	sigs []string
 	// prediction for statistics
 	predictAccept bool
+	off           string // sub: offset kind
+	claimed       int64  // sub: msg.Timestamp
+	outside       bool   // sub: the offset lies outside the allowed discrepancy
 }
 
 func runC15Chain(c c15ChainCase) *pbt.Verdict {
@@ -169,6 +229,11 @@ func runC15Chain(c c15ChainCase) *pbt.Verdict {
 	fp.PowerStepThreshold = c15PowerStep
 	fp.CurrentFeedsUpdateInterval = c.UpdInterval
 	fp.CooldownTime = c.Cooldown
+	disc := c.Discrepancy
+	if disc <= 0 {
+		disc = 60
+	}
+	fp.AllowableBlockTimeDiscrepancy = disc
 	var signals []feedstypes.Signal
 	for _, s := range c.Signals {
 		signals = append(signals, feedstypes.NewSignal(s.ID, s.Factor*c15PowerStep))
@@ -195,6 +260,12 @@ func runC15Chain(c c15ChainCase) *pbt.Verdict {
 		vs[i] = &c15Val{prices: map[string]c15Price{}, clean: true}
 	}
 	penalty, grace, exp := c.PenaltySec, c.Grace, int64(c.Expiration)
+	offKind := func(k string) string {
+		if k == "" {
+			return "0"
+		}
+		return k
+	}
 
 	// set-up facts read from the chain: the feed list (ids and intervals; their computation is C07's subject) and
 	// the genesis update clock. From here on the update clock is modelled.
@@ -240,6 +311,33 @@ func runC15Chain(c c15ChainCase) *pbt.Verdict {
 				if p, has := vs[o.Val%n].prices[f.SignalID]; has {
 					target, ok = p.ts+f.Interval, true
 				}
+			case "price-gap":
+				// land between (claimed timestamp + interval) and (acceptance block time + interval), +-1
+				f := feeds[o.Sigs%len(feeds)]
+				if p, has := vs[o.Val%n].prices[f.SignalID]; has && p.claimed != p.ts {
+					lo, hi := p.claimed+f.Interval, p.ts+f.Interval
+					if lo > hi {
+						lo, hi = hi, lo
+					}
+					switch o.Pos % 7 {
+					case 0:
+						target = lo - 1
+					case 1:
+						target = lo
+					case 2:
+						target = lo + 1
+					case 3:
+						target = (lo + hi) / 2
+					case 4:
+						target = hi - 1
+					case 5:
+						target = hi
+					default:
+						target = hi + 1
+					}
+					ok = true
+					o.Delta = 0
+				}
 			}
 			if d := target + int64(o.Delta) - prev; ok && d >= 0 && d <= 2000 {
 				dt = d
@@ -269,7 +367,7 @@ func runC15Chain(c c15ChainCase) *pbt.Verdict {
 			metas = append(metas, c15Meta{kind: "rep", v: i, req: r})
 			r.sent[i] = true
 		}
-		addSubmit := func(i int, ids []string, status int) {
+		addSubmit := func(i int, ids []string, status int, off string, offR int) {
 			a := ch.Vals[i]
 			st := feedstypes.SIGNAL_PRICE_STATUS_AVAILABLE
 			price := uint64(1000 + i)
@@ -279,7 +377,10 @@ func runC15Chain(c c15ChainCase) *pbt.Verdict {
 			case 2:
 				st, price = feedstypes.SIGNAL_PRICE_STATUS_UNSUPPORTED, 0
 			}
-			accept := pred[i]
+			off = offKind(off)
+			offset := c15Offset(off, offR, disc)
+			outside := offset < -disc || offset > disc
+			accept := pred[i] && !outside
 			var sps []feedstypes.SignalPrice
 			for _, id := range ids {
 				sps = append(sps, feedstypes.NewSignalPrice(st, id, price))
@@ -292,8 +393,8 @@ func runC15Chain(c c15ChainCase) *pbt.Verdict {
 					lastTs[i][id] = now
 				}
 			}
-			txs = append(txs, ch.SignTx(a, feedstypes.NewMsgSubmitSignalPrices(a.Val.String(), now, sps)))
-			metas = append(metas, c15Meta{kind: "sub", v: i, sigs: ids, predictAccept: accept})
+			txs = append(txs, ch.SignTx(a, feedstypes.NewMsgSubmitSignalPrices(a.Val.String(), now+offset, sps)))
+			metas = append(metas, c15Meta{kind: "sub", v: i, sigs: ids, predictAccept: accept, off: off, claimed: now + offset, outside: outside})
 		}
 		for _, p := range pend {
 			switch p.K {
@@ -355,7 +456,7 @@ func runC15Chain(c c15ChainCase) *pbt.Verdict {
 						ids = append(ids, f.SignalID)
 					}
 				}
-				addSubmit(p.Val%n, ids, p.Status)
+				addSubmit(p.Val%n, ids, p.Status, p.Off, p.OffR)
 			}
 		}
 		// diligent validators: report everything open, submit every feed (unless the cool-down forbids it, in
@@ -379,7 +480,11 @@ func runC15Chain(c c15ChainCase) *pbt.Verdict {
 				ids = append(ids, f.SignalID)
 			}
 			if len(ids) > 0 {
-				addSubmit(i, ids, 0)
+				dk, dr := "0", 0
+				if i < len(c.DilOff) && i < len(c.DilOffR) {
+					dk, dr = c.DilOff[i], c.DilOffR[i]
+				}
+				addSubmit(i, ids, 0, dk, dr)
 			}
 		}
 		pend = nil
@@ -462,10 +567,23 @@ func runC15Chain(c c15ChainCase) *pbt.Verdict {
 				}
 			case "sub":
 				if ok {
+					// the reference clock of a price is the block time at which the chain accepted it, whatever
+					// timestamp the validator claimed
 					for _, id := range m.sigs {
-						vs[m.v].prices[id] = c15Price{now, h}
+						vs[m.v].prices[id] = c15Price{ts: now, h: h, claimed: m.claimed}
 					}
 					v.Count("submissions", 1)
+					v.Count("sub_off["+m.off+"]_accepted", 1)
+					classes["off:"+m.off+":accepted"] = true
+					if m.outside {
+						v.Count("offset_outside_accepted", 1)
+					}
+				} else {
+					v.Count("sub_off["+m.off+"]_rejected", 1)
+					classes["off:"+m.off+":rejected"] = true
+					if m.outside {
+						v.Count("offset_outside_rejected", 1)
+					}
 				}
 				if ok != m.predictAccept {
 					v.Count("submit_prediction_mismatch", 1)
@@ -558,6 +676,22 @@ func runC15Chain(c c15ChainCase) *pbt.Verdict {
 				}
 				if !has || p.ts+f.Interval < now {
 					s.clean = false
+				}
+				// blocks in which a clock running from the claimed timestamp and the clock running from the time
+				// of acceptance disagree about "sufficiently recent"; decisive = every other clock is over
+				if has && (p.claimed+f.Interval < now) != (p.ts+f.Interval < now) {
+					in.HasPrice = false
+					others, _, _ := ref.FeedsMiss(in)
+					label := "gap:claimed-stale-accepted-fresh"
+					if p.claimed > p.ts {
+						label = "gap:claimed-fresh-accepted-stale"
+					}
+					if others != ref.No && (h-p.h)*feedstypes.MaxGuaranteeBlockTime > f.Interval {
+						label += ":decisive"
+						v.Count("gap_decisive_blocks", 1)
+					}
+					classes[label] = true
+					v.Count("gap_blocks", 1)
 				}
 			}
 			// the feeds decision is only observable if the oracle side did not already deactivate the validator
